@@ -23,8 +23,18 @@ fn gen(t: &mut Tape, tier: Tier) -> Scenario {
             _ => t.range(2, 1000) as usize,
         }
     };
-    let plain = gen::draw_plain(t, len);
-    let ep = [EP_C_LZMA, EP_C_LZMA, EP_C_LZMA2, EP_C_XZ][t.below(4) as usize];
+    let mut plain = gen::draw_plain(t, len);
+    let mut ep = [EP_C_LZMA, EP_C_LZMA, EP_C_LZMA2, EP_C_XZ][t.below(4) as usize];
+    let mut carry_run = 0;
+    if t.below(if tier == Tier::Thorough { 40 } else { 80 }) == 0 {
+        // constructed input: a run of >= 4 pending 0xFF bytes in the range encoder
+        // that a carry then resolves
+        let (p, r) = gen::carry_stress_plain(t);
+        plain = p;
+        carry_run = r;
+        ep = EP_C_LZMA;
+    }
+    let len = plain.len();
     sc.set_i("ep", ep);
     sc.set_i("enc_mode", t.below(3));
     sc.set_i("enc_size", len as u64);
@@ -37,6 +47,10 @@ fn gen(t: &mut Tape, tier: Tier) -> Scenario {
     }
     sc.set_l("src_script", script);
     sc.note = format!("{} bytes of plaintext", len);
+    if carry_run > 0 {
+        sc.note.push_str(&format!("; constructed so that a carry resolves {} pending 0xFF bytes in the range encoder", carry_run));
+        sc.set_i("carry_run", carry_run);
+    }
     sc.set_b("input", plain);
     sc
 }
@@ -76,6 +90,9 @@ fn exec(sc: &Scenario, ctx: &mut Ctx) -> Vec<Violation> {
     }
     if ro.calls > 2 {
         ctx.stats.hit("probe.reader_fragmented_the_input");
+    }
+    if sc.i("carry_run") >= 4 {
+        ctx.stats.hit("probe.carry_through_4_or_more_pending_ff_bytes");
     }
     ctx.stats.eval(sc.hash() ^ ro.log, !plain.is_empty(), ro.calls + 1);
     let mk = |class: &str, detail: String| vec![Violation::new(class, ep_name(ep), format!("{} [{}]", detail, sc.note), sc)];
@@ -189,7 +206,7 @@ fn wrap_lzma2_in_xz_23(payload: &[u8], content: &[u8]) -> Vec<u8> {
 pub static C04: SimpleProp = SimpleProp {
     id: "C04",
     level: "exploration",
-    rule: "one evaluation = one compression (lzma_compress with each of the 3 header options, lzma2_compress, xz_compress) of a plaintext (lengths 0, 1, 65535, 65536, 65537, 2-3 x 64 KiB, small random; content: constant 0x00/0xFF, random, sparse, sawtooth, long runs with surprises, text-like) read through scripted short reads (1 byte, fixed k, random) or a real BufReader of capacity 1..70000; the output must decode to the input with (a) lzma-rs under the matching option, consuming every emitted byte, (b) the strict reference decoder/parser, (c) liblzma (LZMA2 wrapped into .xz by the reference writer; the header-less layout excepted); non-trivial = non-empty plaintext; distinct by (scenario, event log) hash",
+    rule: "one evaluation = one compression (lzma_compress with each of the 3 header options, lzma2_compress, xz_compress) of a plaintext (lengths 0, 1, 65535, 65536, 65537, 2-3 x 64 KiB, small random; content: constant 0x00/0xFF, random, sparse, sawtooth, long runs with surprises, text-like, and inputs constructed by a guided search so that a carry resolves >= 4 pending 0xFF bytes in the range encoder) read through scripted short reads (1 byte, fixed k, random) or a real BufReader of capacity 1..70000; the output must decode to the input with (a) lzma-rs under the matching option, consuming every emitted byte, (b) the strict reference decoder/parser, (c) liblzma (LZMA2 wrapped into .xz by the reference writer; the header-less layout excepted); non-trivial = non-empty plaintext; distinct by (scenario, event log) hash",
     runs_quick: 40_000,
     runs_thorough: 1_500_000,
     both_profiles: false,
